@@ -13,21 +13,46 @@ SHRINK = False  # the values of a case are tied to their route parameters (ones 
 LEVEL_TEXT = ("Machine-checked Coq theorems over faithful models of the comparison code: (integers) on canonical representations "
               "Repr == is equality of values, the TypedReprRef order with its Small<Large shortcut is Z.compare, Equal iff ==, equal "
               "values feed the hasher the same input, and every constructor (from_word/from_dword/from_buffer/ones/neg/with_sign/"
-              "clone/clone_from/from_ref) returns a canonical representation, lifted to all finite histories by induction; (floats) "
-              "repr_cmp_same_base with its precision and digit shortcuts equals the order of the values for all bases, precisions and "
+              "clone/clone_from/from_ref) returns a canonical representation; the as-is operator models proved exact elsewhere (C01: "
+              "IBig + - * sqr cubic and UBig - in every ownership form; C09: & | ^ and_not << >> set_bit clear_bit), composed with "
+              "Repr::as_sign_typed / from_typed / with_sign, return a canonical representation of the right value for every word size "
+              ">= 8 and all operands; all of it lifted by induction to every finite history mixing constructors, copies, sign changes, "
+              "in-place updates and arithmetic (any two values of such a history compare, equal and hash by value); (floats) "
+              "repr_cmp_same_base with its digit shortcut equals the order of the values for all bases, precisions and "
               "admissible digit estimates (the precision shortcut of the pinned tree, unsound for significands with precision+2 or more "
               "digits, is modelled separately, refuted, and was repaired), == is value equality on normalised representations, "
-              "normalize establishes the invariant for every base (all three branches), the specification order is a total order; (rationals) repr_eq/repr_cmp with their bit-length filters equal "
-              "cross multiplication, RBig's structural ==/Hash is sound on reduced fractions. The models are tied to the code by a "
-              "correspondence run that reads the real layout through a hook and replays the extracted models on it.")
+              "normalize establishes the invariant for every base (all three branches; proved equal to C03's model of Repr::new), the "
+              "specification order is a total order; every modelled producer returns a normalised representation for every base, "
+              "precision, mode and input - Repr::new, Context::convert_base on all its modelled routes (same base, power-up, "
+              "power-down, multiplication, division by repr_div and by the long division: C08's model), with_precision (C08's and "
+              "C10's models), Context::mul/sqr/cubic (C03), trunc/fract/split_at_point/ceil/floor/round (C10), negation, the "
+              "infinities - hence == is value equality and cmp = Equal iff == on anything they return (C05_float_eq_sound_on_producers); "
+              "(rationals) repr_eq/repr_cmp with their bit-length filters equal cross multiplication (the second filter of repr_cmp is "
+              "proved dead code), RBig's structural ==/Hash is sound on reduced fractions. The models are tied to the code by a "
+              "correspondence run that reads the real layout through a hook, checks canonical layout / normalisation / reducedness of "
+              "every value built (the booleans evaluated are proved equivalent to the invariants) and replays the extracted models.")
 LEVEL_NOTE = ("Trusted: Coq kernel, extraction (FastZ.v), zarith, the harness and the thin OCaml driver. Modelled, not verified: the Rust "
-              "sources; that every arithmetic result is built through Repr::from_word/from_dword/from_buffer is asserted on every run by "
-              "the layout hook, not proved. No open finding: ones(2*word bits) on the heap and the float precision shortcut were repaired in /repo.")
+              "sources. Only compared at run time, not proved: (a) integer results of operations without an as-is Repr-level model "
+              "(division/remainder - C02's model works on values and its quotient enters through from_buffer -, gcd, roots, pow, radix "
+              "and byte conversion, bit ops on negative IBig) - the layout hook checks each such value; the sign of a signed result is "
+              "applied with Repr::with_sign as add_ops/mul_ops.rs do, so a zero magnitude is +0 by construction of the composition; "
+              "(b) float add/sub/div/sqrt/exp/ln/powi, parsing, f32/f64 and rational sources: C03's models of these are value-level "
+              "(they omit the final Repr::new), so their normalisation is checked on every run (new producer routes mulfac, muldivx, "
+              "divself, sqrsqrt, addtrunc..., fromstr, fromf64/f32, ratfloat, r_add...r_ln1p) but not proved beyond 'the last step is "
+              "Repr::new'; the ln/exp route of convert_base (|exponent| > 38) is not modelled; (c) f32 digits_ub satisfies the "
+              "hypothesis of the float theorems; (d) the hasher call sequence. No open finding: ones(2*word bits) on the heap and the "
+              "float precision shortcut were repaired in /repo.")
 TECHNIQUE = "Coq proof over as-is models of the comparison/representation code + extracted-model correspondence run with layout hook"
 RULE = ("cases = 2 or 3 values each produced along a route (from_words, padded words, +/- cancel in three operator forms, shifts, "
         "mul/div, div_rem, rem, clone, clone_from into larger/smaller buffers, bytes, radix text, ones, primitives, via IBig, bit set/clear, "
         "split_bits, masks; floats: from_repr, from_parts, scaled significands, with_precision, arithmetic at unlimited precision, "
-        "convert_int, base conversions, infinities; rationals: from_parts, signed, const, scaled by a common factor, arithmetic, "
+        "convert_int, infinities, base conversions for every class of base pair (source a proper power of the target: 4,8,16,32->2, "
+        "9,27->3, 100,1000->10, 256->16 with significands divisible by the target but not the source base; target a power of the "
+        "source; same base; unrelated) x every public route (with_base, with_base_and_precision, to_binary, to_decimal) x "
+        "precisions around the exact digit count and unlimited, each compared with the same value built directly, a second "
+        "conversion route and neighbours; producers whose raw result carries trailing digits (cofactor products, exact "
+        "quotients and roots, trunc/floor/ceil/round/split/fract of x + fraction, parsing with trailing zeros, f32/f64, integers, "
+        "RBig::to_float) and really rounded + - * / sqr sqrt powi inv exp ln_1p results (invariants and comparisons only); rationals: from_parts, signed, const, scaled by a common factor, arithmetic, "
         "canonicalize) x value classes {0, 1, 2, 3, 4, threshold+-1 words, 2^64k +- 1, all-ones} x relations {same value, +-1, negated, "
         "other length, shortcut boundaries exp+precision+{-1..2}, exp+digits+{-1..1}, bit-length filter edges} x all pairs compared with "
         "every impl (==, !=, cmp, partial_cmp, <, <=, >, >=, abs_cmp, abs_eq, mixed IBig/UBig and RBig/Relaxed forms, Hash input). "
@@ -36,13 +61,16 @@ EXPLANATION = ("Theorems (coq/props/C05.v) are about models transcribed from int
                "rational/src/cmp.rs. Each run builds values along many routes in the real library, reads capacity/len/inline through "
                "dashu_int::verif_hooks::repr_layout_*, checks the canonical-layout invariant, the value, and every comparison/hash-input "
                "answer against the value-level specification; the extracted as-is models are replayed on the reported representation "
-               "(model_fidelity).")
+               "(model_fidelity). coq/theories/Int/ReprOrdArith.v and Float/FloatOrdProducers.v import the operator / producer models "
+               "of C01, C09, C03, C08, C10 and prove that their results satisfy the invariants the comparison theorems need.")
 TRUSTED_BASE = [
     "Coq 8.16.1 kernel (coqc); vm_compute only in closed examples and the refutation witnesses",
     "extraction: ExtrOcamlBasic + ExtrOcamlZBigInt + coq/extract/FastZ.v; OCaml 4.13.1 + zarith 1.12; oracle/common.ml, oracle/driver_c05.ml",
     "Rust harness harness/src/bin/c05.rs incl. its recording Hasher (records write/write_usize/write_isize calls; no hash value is computed)",
     "hook dashu_int::verif_hooks::repr_layout_ubig/ibig (cfg dashu_verif) reports the capacity field, length and inline flag faithfully",
     "IBig arithmetic used inside float/rational comparison (shl_digits, products) is taken at its Z meaning (C01/C09)",
+    "the as-is operator / producer models of C01 (Int/RingOps.v), C09 (Int/BitsKernels.v), C03 (Float/Model.v), C08 (Float/TextIoModel.v), "
+    "C10 (Float/RoundOpsModel.v) are those properties' transcriptions of the Rust code; their fidelity is established by those checks",
     "Repr::digits_ub bounds the significand (|sig| < B^(digits_ub+1), hypothesis of the float theorems): not proved for the f32 estimate, "
     "but asserted by the oracle on the estimate reported for every float of every run",
 ]
@@ -247,8 +275,58 @@ def flt_route(rng, b, s, e, prec):
               "rounding", "withprec", "withprec_up", "same_p"]
     if 0 <= e <= 60:
         routes += ["convint", "fromint"]
-    r = rng.choice(routes)
+    # producers whose raw result carries trailing base-B digits (must come back normalised), other sources of floats,
+    # really rounded arithmetic (PRODUCERS: every public operation that builds a Repr)
+    prod = ["mulfac", "muldivx", "divself", "sqrsqrt", "powi1", "fromstr", "ratfloat"]
+    if 0 <= e <= 60:
+        prod += ["addtrunc", "addfloor", "subceil", "addround", "splitpoint"]
+        v = s * b ** e
+        if s > 0:
+            prod.append("fromubig")
+        if 0 <= v < (1 << 64):
+            prod.append("fromu64")
+        if -(1 << 63) <= v < (1 << 63):
+            prod.append("fromi64")
+    if e + d <= 0:
+        prod.append("addfract")
+    if b == 2 and abs(s) < (1 << 53) and -1000 <= e and e + d <= 1000:
+        prod += ["fromf64", "fromf64"]
+    if b == 2 and abs(s) < (1 << 24) and -120 <= e and e + d <= 120:
+        prod += ["fromf32", "fromf32"]
+    rounded = ["r_add", "r_sub", "r_mul", "r_div", "r_sqr", "r_sqrt", "r_inv", "r_exp", "r_ln1p"]
+    if d <= 12:
+        rounded.append("r_powi")
+    k = rng.below(10)
+    r = rng.choice(routes if k < 5 else prod if k < 8 else rounded)
     p = 0
+    if r == "muldivx":
+        p = rng.choice([1, 3, 7, b, b + 1, b * b, 6, (1 << 64) + 1, abs(s)])
+    elif r == "fromstr":
+        p = rng.choice([0, 0, 1, 2, 5])
+    elif r == "addfract":
+        p = rng.choice([0, 1, 5])
+    elif r in ("r_add", "r_sub"):
+        # the second significand one digit position below / above: sums that are powers of the base, cancellations
+        sg = 1 if s > 0 else -1
+        p = rng.choice([1, -1, b ** (d + 1) - abs(s) * b, -(b ** (d + 1) - abs(s) * b), b - 1, gen_sig(rng, b), -gen_sig(rng, b)]) if r == "r_add" \
+            else rng.choice([1, -1, sg, sg * (b - 1), gen_sig(rng, b) % (b ** d) + 1])
+        if p == 0:
+            p = 1
+    elif r == "r_mul":
+        f = min(q for q in range(2, b + 1) if b % q == 0)
+        p = rng.choice([b // f if b // f > 1 else 3, f, b - 1, b + 1, gen_sig(rng, b), b ** d - 1])
+    elif r == "r_div":
+        p = rng.choice([3, 7, b + 1, b - 1 if b > 2 else 5, abs(s), gen_sig(rng, b)])
+    elif r == "r_powi":
+        p = rng.choice([2, 3, 5])
+    elif r in ("r_exp", "r_ln1p"):
+        p = d + rng.choice([1, 2, 5])
+    if r in prod or r in rounded:
+        if r == "fromf64":
+            prec = 53
+        elif r == "fromf32":
+            prec = 24
+        return prec, r, p
     if r == "parts_scaled":
         p = rng.choice([1, 2, 3, 17])
     elif r == "repr_scaled":
@@ -335,40 +413,102 @@ def flt_case(rng, tier):
     return " ".join(toks)
 
 
+# conversion source bases per target base: proper power of the target (power-down shortcut: the significand is carried
+# over, so one divisible by the target base but not by the source base must be re-normalised), target a proper power of
+# the source (power-up), same base, unrelated (multiplication / division / exp-ln routes) - must match arms! in c05.rs
+CONV = {2: [4, 8, 16, 32, 10, 3, 2], 3: [9, 27, 10, 2, 3], 10: [100, 1000, 2, 16, 3, 10], 16: [2, 4, 256, 8, 10, 16]}
+
+
+def is_pow(a, b):
+    """a = b^n with n > 1"""
+    x = b * b
+    while x < a:
+        x *= b
+    return x == a
+
+
+def exact_in_base(sb, s, e, b):
+    """(sig, exp) normalised in base b of s * sb^e when one base is a power of the other or e >= 0, else None"""
+    if sb == b:
+        return norm(b, s, e)
+    if is_pow(sb, b):
+        n = 0
+        x = 1
+        while x < sb:
+            x *= b
+            n += 1
+        return norm(b, s, e * n)
+    if is_pow(b, sb):
+        n = 0
+        x = 1
+        while x < b:
+            x *= sb
+            n += 1
+        q, r = e // n, e % n
+        return norm(b, s * sb ** r, q)
+    if e >= 0:
+        return norm(b, s * sb ** e, 0)
+    return None
+
+
 def flt_conv_case(rng, tier):
-    """values that went through a base conversion (rounded to the target precision since the repairs of convert_base)"""
-    k = 2
-    r = rng.choice(["from10", "from10", "from2", "from16_p", "same_p", "same_p", "from10_p", "from2_p"])
-    if r in ("from10", "from10_p"):
-        sb = 10
-    elif r in ("from2", "from2_p"):
-        sb = 2
-    elif r == "from16_p":
-        sb = 16
-    else:
-        sb = None
-    b = rng.choice([2, 10, 16, 3]) if r in ("from10", "from2", "same_p") else {"from16_p": rng.choice([2, 16]), "from10_p": 10, "from2_p": 2}[r]
-    if sb is None:
-        sb = b
-    s = gen_sig(rng, sb) * rng.choice([1, -1])
-    d = ndig(sb, s)
-    e = rng.choice([0, 1, 5, 20, 30, 38, rng.range(0, 38), -1, -5, 39, 60, -60])
-    prec = rng.choice([d, d, d + 2, 2 * d])
-    if r in ("from10", "from2"):
-        prec = max(prec, 5)  # below that the target precision would be 0 (documented panic for inexact conversions)
-    p = rng.choice([1, 2, 3, max(1, d - 3), max(1, d - 2), d, d + 1, 2 * d])
-    # magnitude of the converted value in base b, and a second operand placed around the shortcuts
+    """values that went through a base conversion (every class of base pair x every public route), compared with the
+    same value built directly in the target base, with a second conversion route, and with neighbours"""
     import math
+    b = rng.choice([2, 2, 3, 10, 10, 16])
+    sb = rng.choice(CONV[b])
+    lossless = sb == b or is_pow(sb, b) or is_pow(b, sb)
+    s = gen_sig(rng, sb)
+    if is_pow(sb, b) and rng.chance(2, 3):
+        # divisible by the target base, not by the source base
+        t = s * b ** rng.range(1, 6)
+        while t % sb == 0:
+            t //= b
+        s = t
+    elif not lossless and rng.chance(1, 3):
+        # trailing target-base digits that only appear after the conversion
+        s = gen_sig(rng, sb) * b ** rng.range(1, 4)
+        if s % sb == 0:
+            s += 1
+    s *= rng.choice([1, -1])
+    d = ndig(sb, s)
+    e = rng.choice([0, 1, 2, 3, 5, 20, 30, 38, rng.range(0, 38), -1, -2, -3, -5, 39, 60, -39, -60])
+    prec = rng.choice([d, d, d + 2, 2 * d] + ([0] if lossless else []))
+    ex = exact_in_base(sb, s, e, b)
+    dd = ndig(b, ex[0]) if ex else max(1, int(d * math.log(sb, b)) + 1)
+    apis = ["wb", "wbp", "wbp"] + (["tb"] if b == 2 else []) + (["td"] if b == 10 else [])
+    if sb == b:
+        apis = ["wbp"] if prec == 0 else ["wb", "wbp"]
+
+    def one(api):
+        pp = prec
+        if api != "wbp" and not lossless:
+            pp = max(prec, 5)  # below that the target precision would be 0 (documented panic for inexact conversions)
+        p = rng.choice([dd, dd, dd + 1, dd + 3, 2 * dd, max(1, dd - 1), max(1, dd - 3), 1, 2] + ([0] if lossless else []))
+        return [rng.choice(MODES), hx(s), hx(e), "%x" % pp, "%s_%x" % (api, sb), hx(p if api == "wbp" else 0)]
+
+    vals = [one(rng.choice(apis))]
     mag = (math.log(abs(s), b) + e * math.log(sb, b))  # log_b |value|
     m = int(math.floor(mag))
-    t = rng.choice([1, b - 1, b + 1, b * b + 1]) * (1 if s > 0 else -1) * rng.choice([1, 1, 1, -1])
-    e2 = m + rng.choice([-40, -10, -3, -2, -1, 0, 1, 2, 3, 10, 40]) if rng.chance(2, 3) else rng.range(min(e, m) - 3, max(e, m) + 3)
-    s2, e2 = norm(b, t, e2)
+    k = rng.below(10)
+    if ex and k < 5:
+        # the same value built directly
+        s2, e2 = ex
+    elif k < 8:
+        t = rng.choice([1, b - 1, b + 1, b * b + 1]) * (1 if s > 0 else -1) * rng.choice([1, 1, 1, -1])
+        e2 = m + rng.choice([-40, -10, -3, -2, -1, 0, 1, 2, 3, 10, 40]) if rng.chance(2, 3) else rng.range(min(e, m) - 3, max(e, m) + 3)
+        s2, e2 = norm(b, t, e2)
+    else:
+        s2, e2 = (norm(b, ex[0] + rng.choice([1, -1]), ex[1]) if ex else norm(b, gen_sig(rng, b), m))
     d2 = ndig(b, s2)
-    toks = ["flt", BASES[b], "2"]
-    first = [rng.choice(MODES), hx(s), hx(e), "%x" % prec, r, hx(p)]
-    second = [rng.choice(MODES), hx(s2), hx(e2), "%x" % rng.choice([d2, d2 + 3, 20]), "repr", "0"]
-    toks += (first + second) if rng.chance(1, 2) else (second + first)
+    vals.append([rng.choice(MODES), hx(s2), hx(e2), "%x" % rng.choice([d2, d2 + 3, max(20, d2), 0]), rng.choice(["repr", "repr", "parts"]), "0"])
+    if rng.chance(1, 3):
+        vals.append(one(rng.choice(apis)))  # a second conversion route of the same source
+    if rng.chance(1, 2):
+        vals.reverse()
+    toks = ["flt", BASES[b], "%x" % len(vals)]
+    for v in vals:
+        toks += v
     return " ".join(toks)
 
 
@@ -456,9 +596,9 @@ def gen_cases(rng, tier, n):
         k = rng.below(100)
         if k < 50:
             out.append(int_case(rng, tier))
-        elif k < 70:
+        elif k < 68:
             out.append(flt_case(rng, tier))
-        elif k < 80:
+        elif k < 82:
             out.append(flt_conv_case(rng, tier))
         else:
             out.append(rat_case(rng, tier))
